@@ -117,6 +117,65 @@ def check(ctx, comp, cfg, op, rng, name='', positive=False, small=False):
         ctx.violation(comp, cfg, 'raises:' + type(e).__name__, name=name, message=str(e)[:300])
 
 
+def wrapper_rules(ctx, name, op, rng, positive=False, small=False):
+    """Derivatives of the arithmetic wrappers follow the calculus rules *relative to the derivative the leaf offers*
+    (exact identities, no finite differences): (sA)'(x) = s A'(x), (As)'(x) = s A'(sx), (A+A)' = 2A', (-A)' = -A',
+    (A+v)' = A', (vA)'(x) = v A'(x), (Aw)'(x)d = A'(wx)(wd), (P2 o A)'(x)d = 2 A(x) A'(x)d."""
+    if util.is_field(op.range) or util.is_field(op.domain) or isinstance(op, S.Functional):
+        return
+    if any(np.dtype(l.dtype).kind not in 'fc' for sp in (op.domain, op.range) for _p, l in util.leaves(sp)):
+        return
+    lo, hi = (0.3, 0.8) if small else (0.3, 1.5)
+    try:
+        x = away_from_kinks(op.domain, rng, positive, lo, hi)
+        d = direction(op.domain, rng)
+        op.derivative(x)(d)
+    except Exception:
+        return
+    sc = 0.8
+    try:
+        v = util.rand_element(op.range, rng)
+        w = away_from_kinks(op.domain, rng, True, 0.5, 1.0)
+    except Exception:
+        return
+    D = lambda pt: op.derivative(pt)
+    rules = [('s*', lambda: sc * op, lambda: sc * D(x)(d)),
+             ('*s', lambda: op * sc, lambda: sc * D(sc * x)(d)),
+             ('+op', lambda: op + op, lambda: 2 * D(x)(d)),
+             ('neg', lambda: -op, lambda: -1 * D(x)(d)),
+             ('+v', lambda: op + v, lambda: D(x)(d)),
+             ('v*', lambda: v * op, lambda: v * D(x)(d)),
+             ('*w', lambda: op * w, lambda: D(w * x)(w * d)),
+             ('P2o', lambda: odl.PowerOperator(op.range, 2) * op, lambda: 2 * op(x) * D(x)(d)),
+             ('s*(+v)*s', lambda: (sc * (op + v)) * sc, lambda: sc * sc * D(sc * x)(d))]
+    cfg = util.space_tag(op.domain)
+    for tag, mk, rule in rules:
+        try:
+            W = mk()
+        except Exception:
+            continue
+        ctx.ev('wrapper-derivative-rule')
+        ctx.case('wrapper-rule;%s;%s' % (comp_of(name), tag), name)
+        try:
+            got = util.to_cvec(op.range, W.derivative(x)(d))
+        except (odl.OpNotImplementedError, NotImplementedError):
+            ctx.skip('wrapper offers no derivative')
+            continue
+        except Exception as e:
+            ctx.violation('wrapper:' + tag, cfg, 'derivative-raises:' + type(e).__name__, name=name, message=str(e)[:200])
+            continue
+        try:
+            with np.errstate(all='ignore'):
+                ref = util.to_cvec(op.range, rule())
+            if not np.all(np.isfinite(ref)):
+                ctx.skip('rule value not finite at the base point')
+                continue
+            if not np.allclose(got, ref, rtol=1e-10, atol=1e-10 * max(1.0, float(np.abs(ref).max()) if ref.size else 1.0)):
+                ctx.violation('wrapper:' + tag, cfg, 'derivative!=rule-applied-to-leaf-derivative', name=name, maxdiff=float(np.abs(got - ref).max()))
+        except Exception as e:
+            ctx.note_add('monitor-exception:' + type(e).__name__)
+
+
 def run_registry(ctx):
     rng = ctx.rng('registry')
     crng = ctx.crng('ctor')
@@ -141,8 +200,8 @@ def run_registry(ctx):
         positive = registry.needs_positive(name)
         small = any(k in name for k in ('arcsin', 'arccos', 'arctanh', 'KullbackLeiblerConvexConj', 'convex_conj/KL'))
         check(ctx, comp, cfg, op, rng, name=name, positive=positive or 'arccosh' in name, small=small)
-        if 'arccosh' in name:
-            pass
+        if group != 'func' and 'arccosh' not in name:
+            wrapper_rules(ctx, name, op, rng, positive=positive, small=small)
 
 
 def specials(rng):
